@@ -359,6 +359,11 @@ impl WalkEntry {
         result.as_ref().map_err(|e| e.clone())
     }
 
+    /// The error of the attempt to get the [Metadata], if one was made and failed.
+    pub fn metadata_error(&self) -> Option<&WalkError> {
+        self.meta.get().and_then(|result| result.as_ref().err())
+    }
+
     /// Get the file type of this entry.
     pub fn file_type(&self) -> FileType {
         match &self.inner {
